@@ -296,3 +296,18 @@ b("C19-b7", "C19", "dulwich/protocol.py", "        data = self._wbuf.getvalue()\
   "        data = self._wbuf.getvalue()\n        if self._buflen:\n            self._write(data)\n        self._buflen = 0\n", "R19.10")
 b("C20-b9", "C20", CFG, "    value_array = bytearray(value.strip(b\" \\t\\r\\n\"))\n",
   "    if b'\"' not in value and b\"#\" not in value and b\";\" not in value:\n        return value.strip().replace(b\"\\\\\\\\\", b\"\\\\\").replace(b\"\\\\n\", b\"\\n\").replace(b\"\\\\t\", b\"\\t\")\n    value_array = bytearray(value.strip(b\" \\t\\r\\n\"))\n", "R20.9")
+
+# ------------------------------------------------------------------ rules added after the defect-hunting round (R09.11, R09.12)
+REPO_PY = "dulwich/repo.py"
+STASH = "dulwich/stash.py"
+b("C09-b7", "C09", REPO_PY, "        graph_walker.update_shallow = lambda new_shallow, unshallow: (\n            pending_shallow.append((new_shallow, unshallow))\n        )\n", "", "R09.11")
+b("C09-b8", "C09", REPO_PY, "        target.object_store.add_pack_data(count, pack_data, progress)\n        for new_shallow, unshallow in pending_shallow:\n            apply_shallow(new_shallow, unshallow)\n",
+  "        for new_shallow, unshallow in pending_shallow:\n            apply_shallow(new_shallow, unshallow)\n        target.object_store.add_pack_data(count, pack_data, progress)\n", "R09.11")
+b("C09-b9", "C09", "dulwich/client.py", "            # Report final progress\n            progress_wrapper.finalize()\n\n            # Fix object format if needed\n            if (\n                result.object_format\n                and result.object_format != target.object_format.name\n            ):",
+  "            # Report final progress\n            progress_wrapper.finalize()\n            target.update_shallow(result.new_shallow, result.new_unshallow)\n\n            # Fix object format if needed\n            if (\n                result.object_format\n                and result.object_format != target.object_format.name\n            ):", "R09.11")
+b("C09-b10", "C09", STASH, "        try:\n            old_stash: ObjectID | None = self._repo.refs[self._ref]\n        except KeyError:\n            old_stash = None\n",
+  "        try:\n            old_stash: ObjectID | None = self._repo.refs[self._ref]\n        except KeyError:\n            old_stash = None\n        self._repo.refs[self._ref] = self._repo.head()\n        old_stash = self._repo.head()\n", "R09.12")
+n("C09-n2", "C09", REPO_PY, "        for new_shallow, unshallow in pending_shallow:\n            apply_shallow(new_shallow, unshallow)\n        return self.get_refs()\n",
+  "        refs = self.get_refs()\n        for new_shallow, unshallow in pending_shallow:\n            apply_shallow(new_shallow, unshallow)\n        return refs\n")
+n("C09-n3", "C09", STASH, "        if old_stash is not None:\n            ok = self._repo.refs.set_if_equals(\n                self._ref,\n                old_stash,\n                cid,\n                message=b\"commit: \" + message,\n                committer=committer,\n            )\n        else:\n            ok = self._repo.refs.add_if_new(\n                self._ref,\n                cid,\n                message=b\"commit: \" + message,\n                committer=committer,\n            )\n",
+  "        reflog_message = b\"commit: \" + message\n        if old_stash is None:\n            ok = self._repo.refs.add_if_new(\n                self._ref,\n                cid,\n                message=reflog_message,\n                committer=committer,\n            )\n        else:\n            ok = self._repo.refs.set_if_equals(\n                self._ref,\n                old_stash,\n                cid,\n                message=reflog_message,\n                committer=committer,\n            )\n")
